@@ -72,6 +72,11 @@ pub fn dec_value(j: &J) -> Result<Value, String> {
             let (y, m, d) = civil_from_days(dec_i64(&j["days"]).ok_or("bad date")?);
             Value::scalar(liquid_core::model::Date::from_ymd(y as i32, m as u8, d as u8))
         }
+        "datetime" if j.get("text").is_some() => {
+            // a date-time given in its printed form (sub-second values)
+            let t = dec_text(&j["text"]).ok_or("bad datetime text")?;
+            Value::scalar(liquid_core::model::DateTime::from_str(&t).ok_or("datetime text rejected")?)
+        }
         "datetime" => {
             let inst = dec_i64(&j["inst"]).ok_or("bad datetime")?;
             let off = dec_i64(&j["off"]).ok_or("bad offset")? as i32;
